@@ -457,9 +457,29 @@ func genC07(t *rapid.T) c07Case {
 	sorted := rapid.Bool().Draw(t, "sorted")
 	s := vGenScenario(t, vScenOpts{Paths: rapid.Bool().Draw(t, "paths"), MinDays: 1, MaxDays: 6, MaxEntries: 5, Sorted: sorted, NUnknown: 3, Window: 8})
 	c := c07Case{S: s, Sorted: sorted, Begin: c07Absent, End: c07Absent}
-	switch rapid.IntRange(0, 4).Draw(t, "x") {
+	// one book in six declares a recipe twice (which declaration wins is the program's business, the reports must still agree)
+	if len(s.Book.Recs) > 0 && rapid.IntRange(0, 5).Draw(t, "dup") == 0 {
+		src := s.Book.Recs[rapid.IntRange(0, len(s.Book.Recs)-1).Draw(t, "dupwhich")]
+		cp := vRec{Head: src.Head, HL: src.HL}
+		for _, l := range src.Lines {
+			if l.Kind == vkEntry && rapid.Bool().Draw(t, "dupkeep") {
+				cp.Lines = append(cp.Lines, l)
+			}
+		}
+		s.Book.Recs = append(s.Book.Recs, cp)
+		s.Book.NoFinalNL = false
+		c.S = s
+	}
+	switch rapid.IntRange(0, 5).Draw(t, "x") {
 	case 0:
 		c.X = "absent-element"
+	case 5:
+		// an element name that is a heading of the book
+		if len(s.Recipes) > 0 {
+			c.X = s.Recipes[rapid.IntRange(0, len(s.Recipes)-1).Draw(t, "xr")]
+		} else {
+			c.X = "absent-element"
+		}
 	default:
 		c.X = s.Basics[rapid.IntRange(0, len(s.Basics)-1).Draw(t, "xi")]
 	}
